@@ -112,7 +112,7 @@ func checkC06(c *Ctx) (int, error) {
 	}
 	c.ev.Rule = fmt.Sprintf("writer direction: every history of %d calls over {Write(0|small|large), Flush, Reset} (TLC) then Write, Close on gzip with all 32 header-field presence patterns (Latin-1 and ASCII strings, Extra up to 65535 bytes) and zlib with/without dictionary at 8 levels, every acceleration level; reader direction: standard-library-written containers with the same header patterns read by fastgo; distinct by (history, setting, header pattern)", maxLen)
 	c.ev.Exhaustive = true
-	for _, cs := range wcases[:minInt(2, len(wcases))] {
+	for _, cs := range spread(wcases) {
 		c.ev.sample(map[string]interface{}{"history": histString(cs.Ops), "setting": cs.Tag})
 	}
 	n, err := c.writerRun("c06w", c.spreadArch(wcases, true), true)
@@ -245,7 +245,7 @@ func checkC07(c *Ctx) (int, error) {
 	}
 	c.ev.Rule = fmt.Sprintf("%d containers (gzip with/without header fields and with two members, zlib with/without dictionary; compress/* and fastgo encoders; payloads up to %d bytes): every single bit flip, every truncation point, plus %d double flips / substitutions / flip+cut, Read sizes {1,2,8,4096}, rotating acceleration levels; distinct by (container, mutation)", len(conts), maxPayload, nExtra)
 	c.ev.Exhaustive = true
-	for _, cs := range cases[:minInt(3, len(cases))] {
+	for _, cs := range spread(cases) {
 		c.ev.sample(map[string]interface{}{"case": cs.Tag})
 	}
 	return c.readerRun("c07", cases, true)
@@ -322,7 +322,7 @@ func checkC08(c *Ctx) (int, error) {
 	}
 	c.ev.Rule = fmt.Sprintf("every gzip file of 1..%d members over payload classes %s x producers %s, trailing {none, garbage, zeros} and both reading modes (TLC, MemberGen); bufio sizes {16,64,4096,65536}, rotating schedules and acceleration levels; concat mode: concatenated payloads then io.EOF; member mode: each payload and header in order and the source positioned after each member; distinct by file description", maxM, pay, prod)
 	c.ev.Exhaustive = true
-	for _, cs := range cases[:minInt(3, len(cases))] {
+	for _, cs := range spread(cases) {
 		c.ev.sample(json.RawMessage(cs.Tag))
 	}
 	return c.readerRun("c08", cases, true)
